@@ -691,3 +691,41 @@ example :
     (closeBuf dt f sup dirty).toList = (closeModel dt f sup).data.toList ∧
     (closeAliased dt f sup dirty).toList ≠ (closeModel dt f sup).data.toList := by
   decide +kernel
+
+/-! ## Round 4 — `subm(a, b, out=…)` as a buffer program
+
+`morph.subm` is `out = _get_output(a, out)`, `if out is not a: out[:] = a`, `_morph.subm(out, b)`, and the C++ loop
+works in place on its first argument. `submBuf dt a b arg` (`Model/C02.lean`) runs that on explicit buffers for the three
+things `out=` can name; the driver prints it as `prog=` and the harness calls the real `subm` in the same three ways. -/
+
+/-- **`subm` with `out=` is the pure clamped subtraction in every aliasing mode**: in place on `a` (the documented form),
+into a separate buffer with arbitrary old contents, and — since fix e250a86 — in place on `b`; every cell is
+`subm(a[i], b[i]) = clamp(a[i] − b[i])` (`C02_subm_exact`). The loop is aliasing-safe because it reads cell `i` of both
+operands before it writes cell `i`, and the wrapper copies `b` before overwriting it with `a`. Before the fix the `out=b`
+call subtracted the buffer from itself (`submBufUnfixed`: every cell `subm(a[i], a[i])`, i.e. 0 for representable values). -/
+theorem C02_subm_buffer_program (dt : DT) (a b buf : Array Int) (hb : b.size = a.size) (hbuf : buf.size = a.size) :
+    submBuf dt a b .aliasA = submPure dt a b ∧
+    submBuf dt a b (.fresh buf) = submPure dt a b ∧
+    submBuf dt a b .aliasB = submPure dt a b ∧
+    (∀ j, j < a.size → (submPure dt a b).getD j 0 = submElem dt (a.getD j 0) (b.getD j 0)) ∧
+    (∀ j, j < a.size → (submBufUnfixed dt a b .aliasB).getD j 0 = submElem dt (a.getD j 0) (a.getD j 0)) := by
+  refine ⟨submInPlace_eq dt a b, ?_, ?_, fun j hj => submPure_getD dt a b j hj, fun j hj => ?_⟩
+  · show submInPlace dt (copyInto buf a) b = _
+    rw [copyInto_eq buf a hbuf]; exact submInPlace_eq dt a b
+  · show submInPlace dt (copyInto b a) b = _
+    rw [copyInto_eq b a hb]; exact submInPlace_eq dt a b
+  · show (submInPlaceSelf dt (copyInto b a)).getD j 0 = _
+    rw [copyInto_eq b a hb]; exact submInPlaceSelf_getD dt a j hj
+
+/-! non-vacuity, and the two broken orders `decide`d on the definitions the driver runs (uint8):
+    the buffer program in all three modes gives `[0, 4, 100]`; the wrapper before fix e250a86 gave zeros for `out=b`;
+    the seeded "mask after the subtraction" fast path run with `out=a` gives `[255, 4, 100]`. -/
+example :
+    let a : Array Int := #[0, 10, 200]
+    let b : Array Int := #[1, 6, 100]
+    (submBuf (dtU 8) a b .aliasA).toList = [0, 4, 100] ∧
+    (submBuf (dtU 8) a b (.fresh #[255, 7, 13])).toList = [0, 4, 100] ∧
+    (submBuf (dtU 8) a b .aliasB).toList = [0, 4, 100] ∧
+    (submBufUnfixed (dtU 8) a b .aliasB).toList = [0, 0, 0] ∧
+    (submMaskAfter (dtU 8) a b).toList = [255, 4, 100] := by
+  decide +kernel
